@@ -883,7 +883,7 @@ var c17gapOnce sync.Once
 
 func (d *c17run) gapMaskCases() {
 	c := d.c
-	names := []string{"Read", "", "Write", "Delete", "", "", "Exec", "Admin"}
+	names := []string{"Read_Only", "", "Wrap", "Key", "", "", "Wrap_Key", "HMAC_SHA256Sign"}
 	c17gapOnce.Do(func() { ttlv.RegisterBitmask[c17TM4](c17tM4, names...) })
 	var named []int
 	for i, n := range names {
